@@ -436,7 +436,12 @@ def fieldItem (a : Ann) (p : Param) : List Tok :=
 def helperItem (a : Ann) (p : Param) : List Tok :=
   if p.hasDefault then fieldItem a p else .name p.name :: .colon :: (annToks a ++ noneDefault)
 
-def kwItem : List Tok := [.dstar, .name "kw"]
+/-- `_var_keyword_name`: the var-keyword of the generated methods is called `kwargs` when a field is called `kw`
+    (since the repair of "uncompilable-stub:parameter-name-clash") -/
+def kwName (ps : List Param) : String := if ps.any (fun p => p.name == "kw") then "kwargs" else "kw"
+
+def kwItem (n : String) : List Tok := [.dstar, .name n]
+
 
 def defToks (f : String) (items : List (List Tok)) : List Tok :=
   .name "def" :: .name f :: .lpar :: (joinComma items ++ [.rpar, .colon, .ellipsis])
@@ -444,7 +449,7 @@ def defToks (f : String) (items : List (List Tok)) : List Tok :=
 /-- `get_init` -/
 def initToks (anns : String → Ann) (s : Sig) : List Tok :=
   defToks "__init__" ([[.name "self"]] ++ s.params.map (fun p => fieldItem (anns p.name) p)
-    ++ (if s.kw then [kwItem] else []))
+    ++ (if s.kw then [kwItem (kwName s.params)] else []))
 
 def anyAnn : Ann := .name ["Any"]
 def iterStrAnn : Ann := .sub ["Iterable"] [.name ["str"]]
@@ -464,10 +469,14 @@ def helperLead : Helper → List (List Tok)
     [[.name "cls"], .name "source_object" :: .colon :: (annToks anyAnn ++ noneDefault), [.star],
      .name "ignore_props" :: .colon :: (annToks iterStrAnn ++ noneDefault)]
 
+/-- the field keywords of a helper method: a field called like one of the fixed parameters of the two classmethods
+    cannot be passed as an override at run time (the name binds to the fixed parameter) and is left out -/
+def helperFields : Helper → List Param → List Param := helperKeep
+
 /-- `get_additional_structure_methods`; `s` is the `__init__` signature (`stubInit`) -/
 def helperToks (anns : String → Ann) (h : Helper) (s : Sig) : List Tok :=
-  defToks (helperName h) (helperLead h ++ s.params.map (fun p => helperItem (anns p.name) p)
-    ++ (if s.kw then [kwItem] else []))
+  defToks (helperName h) (helperLead h ++ (helperFields h s.params).map (fun p => helperItem (anns p.name) p)
+    ++ (if s.kw then [kwItem (kwName s.params)] else []))
 
 /-- `    {field_name}: {type_name}` -/
 def attrToks (a : Ann) (p : Param) : List Tok := fieldItem a p
@@ -536,6 +545,46 @@ def retPart : Option Ann → List Tok
 /-- `def {name}({params}){return_annotations}: ...` -/
 def methodToks (f : String) (ps : List RParam) (ret : Option Ann) : List Tok :=
   .name "def" :: .name f :: .lpar :: (joinComma (sigItems ps) ++ (.rpar :: (retPart ret ++ [.colon, .ellipsis])))
+
+/-! ### `get_type_info` for the field kinds whose rendering nests other renderings -/
+
+/-- the shape of a field as `get_type_info` dispatches on it: `AnyOf/OneOf/AllOf` with exactly two options the second
+    of which is a `NoneField` (`opt`), any other `AnyOf/OneOf/AllOf` (`union`), `Map` with item fields (`map`), and
+    everything else as the annotation it renders to (`leaf`: a module attribute's name, an enum class, the python type
+    of a scalar field, a typing generic, `dict` for a Map without items …) -/
+inductive FTy where
+  | leaf (a : Ann)
+  | opt (x : FTy)
+  | union (xs : List FTy)
+  | map (xs : List FTy)
+deriving Repr, Inhabited
+
+mutual
+/-- `get_type_info` / `_get_anyof_typing`: never a default inside an annotation (fix 08ea09e) -/
+def typeInfo : FTy → Ann
+  | .leaf a => a
+  | .opt x => .sub ["Optional"] [typeInfo x]
+  | .union xs => .sub ["Union"] (typeInfoL xs)
+  | .map xs => .sub ["dict"] (typeInfoL xs)
+termination_by structural t => t
+def typeInfoL : List FTy → List Ann
+  | [] => []
+  | x :: rest => typeInfo x :: typeInfoL rest
+termination_by structural ts => ts
+end
+
+mutual
+def FTy.wf : FTy → Bool
+  | .leaf a => a.wf
+  | .opt x => FTy.wf x
+  | .union xs => !xs.isEmpty && FTy.wfL xs
+  | .map xs => !xs.isEmpty && FTy.wfL xs
+termination_by structural t => t
+def FTy.wfL : List FTy → Bool
+  | [] => true
+  | x :: rest => FTy.wf x && FTy.wfL rest
+termination_by structural ts => ts
+end
 
 /-! ### legal `inspect.Signature` parameter lists -/
 
